@@ -9,8 +9,10 @@
 (***************************************************************************)
 EXTENDS Integers, Sequences, FiniteSets, TLC, SequencesExt
 
+\* "iowslice" Writer<&mut [u8]> and "iowchunk" Writer<W> over a W that takes a few bytes per call: std::io sinks that make short writes
+\* (their write_all is not all-or-nothing per call; they take part in the encode law only)
 Kinds == {"slice", "cslice", "carray", "cbox", "vec", "iow"}
-Bounded(kind) == kind \notin {"vec", "iow"}
+Bounded(kind) == kind \notin {"vec", "iow", "iowchunk"}
 
 \* write_all(chunk) on a sink with capacity cap holding content
 Fits(kind, cap, content, chunk) == ~Bounded(kind) \/ Len(content) + Len(chunk) <= cap
